@@ -175,6 +175,8 @@ CONFIGS = {
     "cubic_v2": {"cc": "cubic", "version": V2, "order": -1},
     "reno_v2": {"cc": "reno", "version": V2, "order": -1},
     "cubic_v1": {"cc": "cubic", "version": V1, "order": 1},
+    # compatible version negotiation v1 -> v2 (thorough tier only)
+    "reno_compat": {"cc": "reno", "version": V1, "order": 1, "c_supported": [V2, V1], "s_supported": [V2, V1]},
 }
 
 
@@ -245,6 +247,9 @@ def run(ctx):
     for s in SCRIPTS:
         for c in cfgs:
             scen["%s/%s" % (s, c)] = {"script": s, "cfg": c}
+    if quick:
+        for s in ("echo", "hello_fin_sep"):
+            scen["%s/reno_compat" % s] = {"script": s, "cfg": "reno_compat"}
     # d <= 1 on everything
     agg = netcheck.explore_scenarios(ctx, "c01", scen, 1, "sharp_scripts_d1", sig_extra=sig_extra)
     # d <= 2: quick rotates a seed-selected third of the scripts, thorough takes all
@@ -255,7 +260,7 @@ def run(ctx):
         pick = [n for i, n in enumerate(names) if i % groups == k]
         sc2 = {"%s/%s" % (s, "reno_v1"): {"script": s, "cfg": "reno_v1"} for s in pick}
     else:
-        sc2 = scen
+        sc2 = {k: v for k, v in scen.items() if v["cfg"] != "reno_compat"}
     agg2 = netcheck.explore_scenarios(ctx, "c01", sc2, 2, "sharp_scripts_d2", sig_extra=sig_extra)
     # small flow-control windows: credit accounting under loss decides liveness
     small = {}
